@@ -66,26 +66,31 @@ func installProbeHooks(a *apiTrack, st *probeStats, seed int64, yield bool) {
 		},
 		Send: func(lockFree func() bool) {
 			atomic.AddInt64(&st.sends, 1)
-			if lockFree() {
+			// Instant, timing-free witness: no tracked API call was in flight over the whole
+			// probe (finished read before, started read after, equal) and yet the lock is held:
+			// the only other user of the lock is the reader goroutine, i.e. this sender.
+			f0 := atomic.LoadInt64(&a.finished)
+			free := lockFree()
+			s0 := atomic.LoadInt64(&a.started)
+			if free {
+				return
+			}
+			if s0 == f0 {
+				atomic.AddInt64(&st.underLock, 1)
 				return
 			}
 			atomic.AddInt64(&st.contended, 1)
-			quiet := 0
 			for i := 0; i < 400; i++ {
-				f1 := atomic.LoadInt64(&a.finished)
-				s1 := atomic.LoadInt64(&a.started)
 				time.Sleep(50 * time.Microsecond)
+				f1 := atomic.LoadInt64(&a.finished)
 				free := lockFree()
-				s2 := atomic.LoadInt64(&a.started)
+				s1 := atomic.LoadInt64(&a.started)
 				if free {
 					return
 				}
-				if s1 == f1 && s2 == s1 { // nobody in flight over the whole interval, lock still held
-					quiet++
-					if quiet >= 3 {
-						atomic.AddInt64(&st.underLock, 1)
-						return
-					}
+				if s1 == f1 {
+					atomic.AddInt64(&st.underLock, 1)
+					return
 				}
 			}
 		},
